@@ -111,7 +111,7 @@ def check(ctx):
     n_h = 150 if ctx.tier == "quick" else 2500
     for _ in range(n_h):
         mk = gen_market(g)
-        H = 1
+        H = g.choice([1, 1, 2, 3])
         k = g.choice([1, 2, 3])
         names = [g.choice([n for n in BASE_FEATURES if n != "empty"]) for _ in range(k)]
         thr = g.choice([x for p in mk["spot"] for x in p])
@@ -133,15 +133,17 @@ def check(ctx):
                 rec.append(x.detach().clone())
                 return self.inner(x[..., :-self.H])
         h_step = Hedger(DropPrev(base, H), [feature_obj(torch, n, mk, thr) for n in names] + ["prev_hedge"])
-        case = {"features": names, "thr": rat_str(thr), "model": model_json(ms), "option": mk["option"], "primary": mk["primary"],
+        hedge = [u] + extra_hedges(torch, g, mk, H - 1)
+        ctx.stats[f"H={H}"] += 1
+        case = {"H": H, "features": names, "thr": rat_str(thr), "model": model_json(ms), "option": mk["option"], "primary": mk["primary"],
                 "T": T, "N": N, "spot": enc_rat(mk["spot"]), "strike": rat_str(mk["strike"]), "dt": rat_str(mk["dt"])}
         with torch.no_grad():
             inject(torch, u, mk)
-            st1, out1, mut = call_impl(h_batched.compute_hedge, d, watch=[("derivative", d)])
+            st1, out1, mut = call_impl(h_batched.compute_hedge, d, hedge, watch=[("derivative", d)])
             if mut:
                 ctx.mutated("compute_hedge(batched)", mut, case)
             inject(torch, u, mk)
-            st2, out2, mut = call_impl(h_step.compute_hedge, d, watch=[("derivative", d)])
+            st2, out2, mut = call_impl(h_step.compute_hedge, d, hedge, watch=[("derivative", d)])
             if mut:
                 ctx.mutated("compute_hedge(stepwise)", mut, case)
         ctx.case(case, nontrivial=True, tag="hedge_modes")
@@ -172,11 +174,11 @@ def check(ctx):
         for p in range(N):
             fj = [feature_json(n, thr) for n in names]
             reqs.append({"op": "hedge", "market": market_json(mk, p), "features": fj, "model": model_json(ms), "n": T, "h": H})
-            metas.append(("hedge", case | {"path": p, "mode": "batched"}, None, anylog, [[out1[p][0][t].item()] for t in range(T)], None))
+            metas.append(("hedge", case | {"path": p, "mode": "batched"}, None, anylog, [[out1[p][hh][t].item() for hh in range(H)] for t in range(T)], None))
             # stepwise in the model: same features + prev_hedge with a module that ignores it
             ms2 = dict(kind="drop_last", h=H, inner=ms)
             reqs.append({"op": "hedge", "market": market_json(mk, p), "features": fj + [["prev_hedge"]], "model": model_json(ms2), "n": T, "h": H})
-            metas.append(("hedge", case | {"path": p, "mode": "stepwise"}, None, anylog, [[out2[p][0][t].item()] for t in range(T)], None))
+            metas.append(("hedge", case | {"path": p, "mode": "stepwise"}, None, anylog, [[out2[p][hh][t].item() for hh in range(H)] for t in range(T)], None))
     try:
         outs = ctx.driver(reqs)
     except DriverBroken as e:
